@@ -61,6 +61,7 @@ pub fn gen_case(prop: &str, seed: u64, tier: &str, run: u64) -> Case {
     let mut mode = Mode::Plain;
     match prop {
         "C01" => {
+            p.huge_contents = true;
             // second run class "noisy": short writes/reads + EINTR must be invisible
             if rng.chance(1, 3) {
                 nz = Some(noise(&mut rng));
@@ -104,6 +105,7 @@ pub fn gen_case(prop: &str, seed: u64, tier: &str, run: u64) -> Case {
             }
         },
         "C07" => {
+            p.huge_contents = true;
             p.w_reopen = 4;
             p.w_audit = 12;
             p.w_remove = 15;
@@ -137,6 +139,7 @@ pub fn gen_case(prop: &str, seed: u64, tier: &str, run: u64) -> Case {
                 p = crash_profile(thorough);
                 mode = Mode::Crash { cuts: CutSel::All { max: 60, sseed: rng.next() }, depth: 1, suffix_every: 4, verify: false };
             } else {
+                p.huge_contents = true;
                 p.w_reopen = 5;
                 p.w_audit = 15;
                 p.w_put = 40;
@@ -145,6 +148,7 @@ pub fn gen_case(prop: &str, seed: u64, tier: &str, run: u64) -> Case {
             }
         }
         "C13" => {
+            p.huge_contents = true;
             p.w_abort = 30;
             p.w_reopen = 5;
             p.w_put = 20;
@@ -169,13 +173,37 @@ pub fn gen_case(prop: &str, seed: u64, tier: &str, run: u64) -> Case {
         }
         "C17" => return gen_c17(&mut rng, run),
         "C18" => return gen_c18(&mut rng, run),
+        "C19" if rng.chance(1, if thorough { 150 } else { 330 }) => {
+            // first-time initialisation with the pre-created directory tree, killed inside it: the
+            // remembered choice must not change behaviour observably afterwards (usability suffix
+            // after every image). 65 792 mkdirs: a handful of sampled cuts, not every boundary.
+            p = crash_profile(thorough);
+            p.max_ops = 4;
+            p.w_reopen = 0;
+            let mut steps: Vec<u64> = (0..4).map(|_| 1 + rng.below(66_200)).collect();
+            steps.push(66_000 + rng.below(60));
+            mode = Mode::Crash { cuts: CutSel::Steps(steps), depth: 1, suffix_every: 1, verify: false };
+            let mut workload = gen_workload(&mut rng, &p);
+            workload.cfg.pre_create = true;
+            workload.cfg.async_mode = false;
+            return Case { property: prop.to_string(), workload, noise: None, mode };
+        }
         "C19" => {
             p.w_c19 = 14;
             p.w_reopen = 4;
             p.allow_precreate = true;
             p.max_ops = 14;
         }
-        "C20" => match rng.below(3) {
+        "C20" => match rng.below(4) {
+            3 => {
+                // versions must not be reused across restarts even when an append failed in between
+                // (the version it consumed never reached the log): F-err run class, monitors only
+                p = crash_profile(thorough);
+                p.max_ops = 7;
+                p.n_choices = vec![1, 2, 3, 4, 5];
+                let errno = *rng.pick(&[libc::EIO, libc::ENOSPC]);
+                mode = Mode::Err { site: SiteSel::All { max: if thorough { 200 } else { 50 }, sseed: rng.next() }, errno, suffix_seed: rng.next() };
+            }
             0 => {
                 p.w_reopen = 10;
                 p.w_checkpoint = 8;
@@ -203,7 +231,14 @@ pub fn gen_case(prop: &str, seed: u64, tier: &str, run: u64) -> Case {
 fn gen_c17(rng: &mut Rng, run: u64) -> Case {
     let key_type = *rng.pick(&KEY_TYPES);
     let keys_hex = gen_keys_hex(rng, key_type, 2, false);
-    let l: usize = if run <= 6 { run as usize } else { *rng.pick(&[7usize, 8, 100, 4095, 4096, 8191, 8192, 8193, 16384, 70_000]) };
+    let l: usize = if run <= 6 {
+        run as usize
+    } else if rng.chance(1, 8) {
+        // beyond every plausible internal buffer / pre-allocation cap
+        *rng.pick(&[131_072usize, 1_048_575, 1_048_576, 1_048_577, 2_500_000])
+    } else {
+        *rng.pick(&[7usize, 8, 100, 4095, 4096, 8191, 8192, 8193, 16384, 70_000])
+    };
     let contents = vec![ContentSpec { stream: 1, size: l }, ContentSpec { stream: 2, size: (l / 2).max(1) }];
     let mut ops = vec![Op::Put { k: 0, c: 0, chunks: vec![l], abort: false }];
     if run <= 6 {
@@ -277,8 +312,15 @@ fn gen_c18(rng: &mut Rng, run: u64) -> Case {
         }
     } else {
         let mut specs = Vec::new();
+        let huge_at = if rng.chance(1, 4) { rng.below(4) } else { 99 };
         for i in 0..4 {
-            let size = if rng.chance(1, 2) { *rng.pick(&gen::SIZES) } else { rng.below(30_000) as usize };
+            let size = if i == huge_at {
+                *rng.pick(&gen::HUGE_SIZES)
+            } else if rng.chance(1, 2) {
+                *rng.pick(&gen::SIZES)
+            } else {
+                rng.below(30_000) as usize
+            };
             specs.push(ContentSpec { stream: i + 1, size });
         }
         contents = specs;
